@@ -239,16 +239,17 @@ theorem collectItems_congr {kf} {fk gk fv gv : Py → Outcome Val}
   | nil => rfl
   | cons kv kvs ih => obtain ⟨k, v⟩ := kv; simp only [collectItems, hk, hv, ih]
 
-/-- with a key method that cannot fail, the order in which key and value are checked is irrelevant -/
-theorem collectItems_order {fk fv : Py → Outcome Val} (hk : ∀ s, ∃ v, fk (.str s) = .ok v) :
+/-- the two mapping methods run the same item loop (since the repair of row 30: key, then value, errors merged) -/
+theorem collectItems_order' {fk fv : Py → Outcome Val} :
     ∀ kvs, collectItems true fk fv kvs = collectItems false fk fv kvs := by
   intro kvs; induction kvs with
   | nil => rfl
   | cons kv kvs ih =>
     obtain ⟨k, v⟩ := kv
-    obtain ⟨w, hw⟩ := hk k
-    simp only [collectItems, ih, hw, stepItem]
-    cases fv v <;> rfl
+    simp only [collectItems, ih, stepItem]
+
+theorem collectItems_order {fk fv : Py → Outcome Val} (_hk : ∀ s, ∃ v, fk (.str s) = .ok v) :
+    ∀ kvs, collectItems true fk fv kvs = collectItems false fk fv kvs := collectItems_order'
 
 theorem mkItems_congr {fk gk fv gv : Py → Outcome Val}
     (hk : ∀ x, fk x = gk x) (hv : ∀ x, fv x = gv x) (kvs) : mkItems fk fv kvs = mkItems gk gv kvs := by
@@ -316,6 +317,31 @@ theorem mapping_variants {c k1 k2 v1 v2} (hk : REq k1 k2) (hv : REq v1 v2)
     intro hc he
     rw [asVal_dict, mkItems_vals (fun x v h => checkOnly_returnsData.1 k1 hkc x v h)
           (fun x v h => checkOnly_returnsData.1 v1 hvc x v h) false kvs hc he]
+
+/-- `MappingCheckOnly` and `MappingMethod` agree (since the repair of row 30, whatever the key method) -/
+theorem mapping_variants' {c k1 k2 v1 v2} (hk : REq k1 k2) (hv : REq v1 v2)
+    (hkc : k1.checkOnly = true) (hvc : v1.checkOnly = true) :
+    REq (.mappingCheckOnly c k1 v1) (.mapping c k2 v2) := by
+  intro d; rw [run, run]
+  cases d <;> try rfl
+  case dict kvs =>
+    simp only [onDict]
+    rw [← collectItems_congr (fun x => hk x) (fun x => hv x), ← mkItems_congr (fun x => hk x) (fun x => hv x),
+        collectItems_order']
+    apply finishMap_congr
+    intro hc he
+    rw [asVal_dict, mkItems_vals (fun x v h => checkOnly_returnsData.1 k1 hkc x v h)
+          (fun x v h => checkOnly_returnsData.1 v1 hvc x v h) false kvs hc he]
+
+theorem mappingSel_noCopy' {o : DOpts} {c k1 k2 v1 v2} (hk : REq k1 k2) (hv : REq v1 v2) :
+    REq (mappingSel { o with noCopy := true } c k1 v1) (mappingSel { o with noCopy := false } c k2 v2) := by
+  unfold mappingSel
+  simp only [Bool.true_and, Bool.false_and, Bool.false_eq_true, if_false]
+  split
+  · rename_i hco
+    rw [Bool.and_eq_true] at hco
+    exact mapping_variants' hk hv hco.1 hco.2
+  · exact mapping_congr hk hv
 
 theorem mappingSel_noCopy {o : DOpts} {c k1 k2 v1 v2} (hk : REq k1 k2) (hv : REq v1 v2)
     (hkt : k1.checkOnly = true → KeyTotal k1) :
@@ -610,11 +636,11 @@ def Ty.plainKey : Ty → Bool
   | _ => false
 
 mutual
-/-- scope of the theorem: no TypedDict, plain mapping keys, distinct field names -/
+/-- scope of the theorem: no TypedDict, distinct field names (any key type, since the repair of row 30) -/
 def Ty.scope : Ty → Bool
   | .list t | .set t | .frozenset t | .vtuple t | .newtype _ t | .ann _ t => t.scope
   | .tuple ts | .union ts => scopeL ts
-  | .mapping k v => k.plainKey && k.scope && v.scope
+  | .mapping k v => k.scope && v.scope
   | .obj ci fs => ci.kind != .typedDict && distinctStrs (namesT fs) && scopeF fs
   | _ => true
 termination_by structural t => t
@@ -729,7 +755,7 @@ theorem noCopy_independent (o : DOpts) :
     rw [Ty.scope] at hs
     simp only [Bool.and_eq_true] at hs
     rw [compile, compile]
-    exact mappingSel_noCopy (ihk hs.1.2) (ihv hs.2) (plainKey_spec _ k hs.1.1)
+    exact mappingSel_noCopy' (ihk hs.1) (ihv hs.2)
   · intro cs ts ih hs; rw [Ty.scope] at hs; rw [compile, compile]; exact unionSel_congr (ih hs)
   · intro cs vs _ d; rw [compile, compile]
   · intro cs c ms _ d; rw [compile, compile]
